@@ -173,6 +173,14 @@ pub fn run_vrl(src: &str, event: Value) -> Result<Value, String> {
     Runtime::default().resolve(&mut target, &program, &TimeZone::default()).map_err(|e| e.to_string())
 }
 
+/// Compile `src` with the full stdlib and return the program info (`Err` = diagnostic messages).
+pub fn compile_info(src: &str) -> Result<vrl::compiler::ProgramInfo, String> {
+    match vrl::compiler::compile(src, &vrl::stdlib::all()) {
+        Ok(res) => Ok(res.program.info().clone()),
+        Err(diags) => Err(diags.iter().map(|d| d.message().to_string()).collect::<Vec<_>>().join("; ")),
+    }
+}
+
 /// Variant used by the C25/C29 slices: errors are tagged (`compile: E…`, `error: …`, `abort: …`,
 /// `panic: …`), panics are caught, the configured timezone can be chosen.
 pub mod tagged {
